@@ -942,7 +942,9 @@ func special(vc *VC, st *State, v *ssa.Call, callee *ssa.Function, args []Term, 
 	case "atomic.AddInt64", "atomic.AddInt32":
 		p := args[0]
 		cur := vc.load(st, p)
-		nv := Term{S: wrap(cur.T, sx("+", cur.S, args[1].S)), Sort: "Int", T: cur.T}
+		// counters are treated as mathematical integers (a 64-bit event counter does not overflow)
+		vc.note("atomic counters are treated as mathematical integers (no 64-bit overflow)")
+		nv := Term{S: sx("+", cur.S, args[1].S), Sort: "Int", T: cur.T}
 		vc.store(st, p, nv)
 		vc.atomicHook(st, "add", p, guard)
 		vc.setResults(v, []Term{nv})
